@@ -1,6 +1,8 @@
 prop("C07", files={"root": AUTH + EV}, shared={"root": J + ["vf_ids_test.go"]},
      assumptions=["R-auth (vf_rauth_test.go) transcribes the authorisation rules of room versions 1-12 with the documented departures D1-D13 of DESIGN.md 5.1",
                   "auth-state events whose own content could not have been accepted (unparseable power levels / join rule / membership / create content) are outside the judged domain (no-panic only)",
-                  "duplicate/superfluous auth_events entries and signature checks are the caller's side (D9)"])
+                  "duplicate/superfluous auth_events entries and signature checks are the caller's side (D9)"],
+     rapidfuzz=[('root', 'C07/random', 60), ('root', 'C07/power-levels', 45)])
 prop("C08", files={"root": AUTH + EV}, shared={"root": J + ["vf_ids_test.go"]},
-     assumptions=["the no-escalation invariant is computed from the old and new contents with effective values (defaults filled in, D3) and the sender's effective level (D2: creator 2^53-1 without a power-levels event; v12 creators infinite)"])
+     assumptions=["the no-escalation invariant is computed from the old and new contents with effective values (defaults filled in, D3) and the sender's effective level (D2: creator 2^53-1 without a power-levels event; v12 creators infinite)"],
+     rapidfuzz=[('root', 'C08/pairs', 45), ('root', 'C08/histories', 45)])
